@@ -663,6 +663,26 @@ pub fn run(run: &mut Run) {
             }
         }
     }
+    // counts whose serialisation is as long as a power of two and a little more (a length computed in 8, 16 or 17 bits would wrap
+    // into the valid range): hdr + n * elem in 2^k .. 2^k + 1024 for 2^k = 256 (compressed mode only reaches beyond it), 2^16, 2^17
+    for v in build::COUNTED {
+        let (hdr, elem, _, _, _) = build::counted_layout(v);
+        for compressed in [false, true] {
+            for pow in [1usize << 8, 1 << 10, 1 << 16, 1 << 17] {
+                let first = (pow - hdr.min(pow)).div_ceil(elem);
+                let mut n = first.saturating_sub(1);
+                while hdr + n * elem <= pow + 1024 + elem {
+                    if n > 260 {
+                        cc.push(CountCase { variant: v.to_string(), compressed, n });
+                    }
+                    n += 1;
+                }
+            }
+            for n in [300usize, 511, 512, 513, 1000, 4095, 4096, 10_000, 65_535, 65_536, 65_537, 70_000] {
+                cc.push(CountCase { variant: v.to_string(), compressed, n });
+            }
+        }
+    }
     let n = cc.len() as u64;
     run.enumerate(&Counts, n, true, |i| Some(cc[i as usize].clone()));
     // (2) ASCII lengths, exhaustive
